@@ -104,6 +104,16 @@ def run_one(tape: Tape, tier: str, opts: dict) -> dict:
         cfg: dict[str, Any] = {"backend": backend, "dt": dt, "observables": obs, "default_times": None, "noise": noise, "n_trajectories": ntraj}
         if backend == "mps":
             cfg.update(precision=1e-6, max_bond_dim=64, optimize=tape.bool(0.5, "optimize"), solver="tdvp")
+        # a user-supplied initial state is one object in the config, handed to every trajectory
+        if "spam_prep" not in kinds and not scn.get("xy") and tape.bool(0.3, "user_initial_state"):
+            bits = "".join("r" if tape.bool(0.5, f"ib{i}") else "g" for i in range(n_atoms))
+            bits = bits if "r" in bits else "r" + bits[1:]
+            if backend == "sv" and "lindblad" in kinds:
+                other = "".join("g" if ch == "r" else "r" for ch in bits)
+                w = round(tape.float(0.2, 0.8, "mix_w"), 2)
+                cfg["initial_mixed"] = [[bits, w], [other, round(1.0 - w, 2)]]
+            else:
+                cfg["initial_bits"] = bits
         try:
             S.make_config(scn, cfg)
         except Exception as e:
@@ -111,7 +121,7 @@ def run_one(tape: Tape, tier: str, opts: dict) -> dict:
         seeds = (tape.seed32("seed_py"), tape.seed32("seed_np"), tape.seed32("seed_torch"))
         perm = tape.permutation(n_atoms, "perm") if cfg.get("optimize") else list(range(n_atoms))
         case = {"cfg": cfg, "perm_kind": "fixed", "perm": perm}
-        desc = {"backend": backend, "atoms": scn["atoms"], "ops": scn["ops"], "dt": dt, "T": T, "noise": noise, "n_trajectories": ntraj, "observables": [o["kind"] for o in obs], "times": times, "shots": obs[0]["shots"], "internal_order": perm if cfg.get("optimize") else None}
+        desc = {"backend": backend, "atoms": scn["atoms"], "ops": scn["ops"], "dt": dt, "T": T, "noise": noise, "n_trajectories": ntraj, "initial_state": cfg.get("initial_mixed") or cfg.get("initial_bits"), "observables": [o["kind"] for o in obs], "times": times, "shots": obs[0]["shots"], "internal_order": perm if cfg.get("optimize") else None}
         history: list[dict] = []
         first: dict[int, tuple] = {}
 
